@@ -251,7 +251,7 @@ func init() {
 		Rule: "part 1 (round trip): seeded KV histories whose keys, values and buckets have all lengths from empty to segment-filling, binary bytes, TTLs over the uint32 range and explicit timestamps, in all three index modes, are read back after clean reopens (RAM modes rebuild everything from the stored records, key-only and sparse mode read every value back through stored offsets) and compared with the model; " +
 			"part 2 (corruption): the closed directory is then damaged by one seeded fault at a time — a single bit flipped inside the used bytes of a .dat / .bptridx / .meta file, or such a file truncated — and for each damaged copy Open, every read, Merge and a second reopen are exercised: an error or an absent key is fine, but every pair that is returned must be byte-for-byte a pair some Put of the history stored for that bucket and key; non-trivial = at least 3 damaged copies were opened and read",
 		Gen: func(r *core.Rng, tier string) *prog.Program {
-			p := gen.KVParams{Mega: 0.001, Modes: []int{0, 1, 2}, Segs: []int64{256, 512, 1024}, MinTx: 3, MaxTx: 14, MaxOps: 3, Buckets: 2,
+			p := gen.KVParams{Mega: 0.003, Modes: []int{0, 1, 2}, Segs: []int64{256, 512, 1024}, MinTx: 3, MaxTx: 14, MaxOps: 3, Buckets: 2,
 				TTL: true, Timestamps: true, Deletes: true, Advance: r.Bool(0.3), Reopen: 0.15, ManyKeys: 0.1}
 			if tier == "thorough" {
 				p.MaxTx = 30
